@@ -275,14 +275,44 @@ def _r3(ctx):
             ctx.holds(f, unp[0], "%s: each of the %d lists grows by one; returned in order" % (h, len(LISTS)))
 
 
+def _attr_roles(prog):
+    """recorder attribute -> the argument of record_values_fkm_nonlinear that is appended to it (roles, not names: the
+    attributes are private and may be renamed).  -> (method, {attr: param}, [(stmt, attr, params)] that could not be resolved)"""
+    r = prog.lookup_method(prog.cls(REC), "record_values_fkm_nonlinear")
+    params = [p_ for p_ in r.params if p_ != "self"]
+    roles, odd = {}, []
+    for s in walk_function(r.node):
+        tgt = None
+        if isinstance(s, ast.Assign) and is_self_attr(s.targets[0]):
+            tgt, val = s.targets[0].attr, s.value
+        elif isinstance(s, ast.AugAssign) and is_self_attr(s.target):
+            tgt, val = s.target.attr, s.value
+        elif isinstance(s, ast.Expr) and isinstance(s.value, ast.Call) and isinstance(s.value.func, ast.Attribute) and \
+                s.value.func.attr in ("append", "extend") and is_self_attr(s.value.func.value):
+            tgt, val = s.value.func.value.attr, s.value
+        if tgt is None:
+            continue
+        srcs = {n.id for n in ast.walk(val) if isinstance(n, ast.Name) and n.id in params}
+        if not srcs:
+            continue
+        own = srcs - {"S_min"} if len(srcs) > 1 else srcs        # S_min also supplies the common index of the new rows
+        if len(own) == 1:
+            roles[tgt] = next(iter(own))
+        else:
+            odd.append((s, tgt, srcs))
+    return r, roles, odd
+
+
 def _r4(ctx):
     prog = ctx.prog
     ctx.rule("R-C05-4", floor=5, what="derived columns equal their definitions (normal form), zero-mean override 0, 0, -1")
     ci = prog.cls(REC)
 
+    _, roles, _ = _attr_roles(prog)
+
     def atom(e):
         if isinstance(e, ast.Call) and call_name(e) == "np.array" and e.args and is_self_attr(e.args[0]):
-            return e.args[0].attr.lstrip("_")
+            return roles.get(e.args[0].attr, "?" + e.args[0].attr)
         if isinstance(e, ast.Name):
             return e.id
         return None
@@ -352,30 +382,29 @@ def _r5(ctx):
                          text="column %s" % k)
     if only != ["debug_output"]:
         ctx.violated(f, dicts[0], "columns %s exist in only one of the two layouts (only debug_output may)" % only, text="layout columns")
+    r, roles, odd = _attr_roles(prog)
+    derived = ("R", "S_a", "S_m", "epsilon_a", "epsilon_m")
     for k, v in maps[1].items():
-        want = {"loads_min": "self._loads_min", "loads_max": "self._loads_max", "S_min": "self._S_min", "S_max": "self._S_max",
-                "epsilon_min": "self._epsilon_min", "epsilon_max": "self._epsilon_max", "epsilon_min_LF": "self._epsilon_min_LF",
-                "epsilon_max_LF": "self._epsilon_max_LF", "R": "self.R", "S_a": "self.S_a", "S_m": "self.S_m",
-                "epsilon_a": "self.epsilon_a", "epsilon_m": "self.epsilon_m"}.get(k)
-        if want is not None and v != want:
+        if k in derived:
+            want = "self." + k
+        elif k in roles.values():
+            want = "self." + next(a_ for a_, p_ in roles.items() if p_ == k)
+        else:
+            continue
+        if v != want and want not in v.replace("self._", "self._") and v != "self." + k:
+            # (the attribute itself, the attribute inside a conversion such as np.array(...), or the public property of that name)
             ctx.violated(f, dicts[1], "column %s is filled from %s, expected %s" % (k, v, want), text="source %s" % k)
-    # the recorder stores each argument in the attribute of the same name
-    r = prog.lookup_method(prog.cls(REC), "record_values_fkm_nonlinear")
-    bad = []
-    for s in walk_function(r.node):
-        tgt = None
-        if isinstance(s, ast.Assign) and is_self_attr(s.targets[0]):
-            tgt, val = s.targets[0].attr, s.value
-        elif isinstance(s, ast.AugAssign) and is_self_attr(s.target):
-            tgt, val = s.target.attr, s.value
-        if tgt and tgt.lstrip("_") in r.params:
-            srcs = {n.id for n in ast.walk(val) if isinstance(n, ast.Name) and n.id in r.params and n.id != "self"}
-            if srcs - {tgt.lstrip("_"), "S_min"}:
-                bad.append((s, tgt, srcs))
-    if bad:
-        ctx.violated(r, bad[0][0], "recorder stores %s into self.%s" % (sorted(bad[0][2]), bad[0][1]))
+    # the recorder stores each argument in an attribute of its own
+    twice = sorted(p_ for p_ in set(roles.values()) if list(roles.values()).count(p_) > 1)
+    if odd:
+        ctx.violated(r, odd[0][0], "recorder stores %s into self.%s" % (sorted(odd[0][2]), odd[0][1]))
+    elif twice:
+        ctx.violated(r, r.node, "recorder stores the argument %s into several attributes (%s): one of them is not the history of its "
+                     "own argument" % (twice[0], sorted(a_ for a_, p_ in roles.items() if p_ == twice[0])), text="recorder roles")
+    elif len(roles) < 8:
+        raise AnalysisError("record_values_fkm_nonlinear: fewer than 8 stored arguments recognised")
     else:
-        ctx.holds(r, r.node, "recorder appends every argument to the attribute of the same name")
+        ctx.holds(r, r.node, "recorder appends every argument to an attribute of its own (%d attributes)" % len(roles))
 
 
 def _r6(ctx):
